@@ -17,6 +17,14 @@ CLAIMED = {
          "arguments are non-nil Objects (undefined is the singleton); dynamic method calls on Objects of kinds outside the vocabulary return arbitrary results and do not panic; sort.Slice, strconv, fmt assumed panic-free; strings.Repeat/bytes.Repeat preconditions are obligations"),
  "C20": ("Scalar values cross the Go boundary unchanged: ToObject(ToInterface(o)) is o (same type and value, bit equality for floats) for int, uint, float, char, bool, string and undefined; ToInterface(ToObject(v)) is v for int64, uint64, float64, rune, bool, string and nil; int, uint, uintptr, byte and float32 convert to the uGO value with the same numeric value; lemmas over the real ToObject/ToInterface bodies. ToObject, ToObjectAlt and ToInterface are panic-free (safety sweep, nested values through the functions' own contracts). Not decided: round trips of bytes, arrays and maps (need inductive lemmas over nesting), ToObjectAlt value clauses, the numeric helper conversions, error for unsupported types.",
          "registry converters trusted (assumed non-nil and panic-free); sync locks no-ops"),
+ "C02": ("Only the call-argument binding clause of the statement: entering a compiled function binds fixed parameters to the arguments in order, packs the remaining arguments of a variadic function into an array and leaves every other local undefined - proved for calls from Go (VM.initLocals) and for in-script calls without spread (VM.xOpCallCompiled, flags == 0) against the same clauses, including the frame re-use of a self-recursive tail call. Everything else in the statement (evaluation order, scoping, closures, compound assignment, loops, spread calls, destructuring) is not covered; the tail-call-through-POP;RETURN behaviour (returns the callee's value where ordinary recursion returns undefined) is a known open issue outside the functions under contract.",
+         "call preconditions vmCallOK (callee below the arguments, frame fits the stack, a function calling itself has its locals below the callee); one parked obligation (variadic + tail call) listed in the evidence"),
+ "C07": ("Installing bytecode, clearing a VM and setting up frame 0 are functions of their inputs only and never write the Bytecode: SetBytecode, Clear (every stack slot nil, cache and globals dropped), initCurrentFrame, clearCurrentFrame, each with a proved frame clause listing exactly the VM fields written. Not decided: the Run prologue as a whole (two-state non-interference), OP_CLOSURE, slots above sp / frames above frameIndex never being read before written.",
+         "sync locks no-ops; vmPool.clear modelled through the map component"),
+ "C12": ("Module store: addModule hands out index == old count, keeps all indexes below the count and pairwise distinct (quantified invariant over the map), getModule returns the stored entry; BuiltinModule.Import returns a copy that is not the shared attribute map and carries the module name, leaving the module untouched. Not decided: LOADMODULE/STOREMODULE arms of VM.loop, compileImportExpr's emission pattern, cyclic import detection, which import executes first.",
+         "Map.Copy's dynamic Copy() calls on values of kinds outside the vocabulary return arbitrary results"),
+ "C14": ("Parameter binding on entry from Go (initLocals) and for in-script calls (xOpCallCompiled) proved against the same clauses (fixed, variadic packing, undefined locals); a pooled child VM gets exactly the root's file set, constants, module cache, recovery flag and the callee as main function and is registered (_acquire), and is wiped and unregistered on release (_release). Not decided: Invoker.Invoke itself, equality of whole runs, error propagation.",
+         "same as C02; vmSyncPool opaque"),
  "C15": ("Equal and BinaryOp of Int, Uint, Float, Char, Bool, String, Bytes, undefined proved against specEq/specArith/specOrder for all operand values (bit-vector/IEEE semantics), errors are ZeroDivisionError/TypeError and never a panic; symmetry, trichotomy and derived-order lemmas over the spec; xOpUnary. Not decided: arrays/maps/errors Equal, the VM's OpEqual/OpNotEqual arms.",
          "dynamic TypeName()/String() calls assumed panic-free; interface-level dispatch closed over the listed kinds"),
  "C18": ("Safety sweep with thin contracts of the version 2 decoder: toVarint, readByteFrom, varintConv.read/readBytes, DecodeObject, decodeBytecodeV2, Bytecode.UnmarshalBinary and the UnmarshalBinary methods of every constant kind, function kinds, SourceFile and SourceFileSet: no index, slice, nil, type-assertion, division or make panic for arbitrary input bytes and readers, and every allocation whose size is not a constant is bounded by 1 MiB or by the input bytes in hand (len of the input slice / Len() of the reader). Not decided: the version 1 converter (assumed contract, excluded from the claim), gob fallback, three parked obligations (builtin table contents, DecodeObject non-nil result).",
@@ -25,15 +33,11 @@ CLAIMED = {
          "sort.Search trusted contract (calls f only inside [0,n), f(r) and !f(r-1))"),
 }
 NA = {
- "C02": "no contract within reach states source-level semantics of compiled code; only call-binding could be covered and is not built yet",
  "C06": "panic-freedom of the code outside the VM's recover not built yet",
- "C07": "two-state (non-interference) contracts on the Run prologue not built yet",
  "C08": "quantifies over goroutine interleavings and data races; the sequential VC generator has no ownership or permission logic",
  "C09": "cross-goroutine abort/cancellation protocol with bounded liveness; no thread or liveness support in this family",
  "C10": "relates two compilation histories (N fragments vs one concatenation); no per-function contract expresses it",
  "C11": "the converter's relocation contract (loop invariant over the instruction stream) is not discharged yet; MakeInstruction/ReadOperands, which it relies on, are proved under C05; the relocation defect itself was repaired (fix: commit)",
- "C12": "module store / LOADMODULE-STOREMODULE contracts not built yet",
- "C14": "binding equivalence contracts (initLocals vs xOpCallCompiled) not built yet",
  "C17": "oracle is encoding/json itself; stating it as contracts means formalising that implementation (string/sequence reasoning outside the solvers' reach)",
 }
 
